@@ -91,9 +91,10 @@ PROPS["C16"] = {
         "alone_single", "alone_toxic", "alone_update", "step_update", "step_toxic_absent", "kindOf_toxic_inv", "kindOf_update_inv",
         "alone_replace", "step_replace", "kindOf_replace_inv", "find_replace_self",
         "C16_zombie_witness", "C16_zombie_not_sequential", "C16_lost_disable_witness", "C16_lost_disable_not_sequential",
-        "C16_replace_race_witness", "C16_replace_race_not_sequential"]],
+        "C16_replace_race_witness", "C16_replace_race_not_sequential",
+        "C16_replace_stopped_witness", "C16_replace_stopped_not_sequential", "stopFirst_spec"]],
     "engines": [{"engine": "e7", "args": [], "tag": "C16"}],
-    "model_scope": "api.go handlers as sequences of atomic blocks (Model/Conc.lean): ProxyCreate/ProxyDelete/reads one block (ProxyCollection.Add/Remove under the collection lock), a populate that replaces a running proxy two (AddOrReplace: existing.Stop(), then proxy.Start() and the insert — the collection lock is held across both, which stops every other handler's first block but not a Proxy.Update in progress), toxic add/update/remove two blocks (lookup, then the ToxicCollection method on that object), ProxyUpdate four (lookup, unlocked read of the defaults + decode, Proxy.Update whose stop-then-start is visible half-way to unlocked readers); proxy objects identified by (name, epoch); listeners of unregistered objects (zombies)",
+    "model_scope": "api.go handlers as sequences of atomic blocks (Model/Conc.lean): ProxyCreate/ProxyDelete/reads one block (ProxyCollection.Add/Remove under the collection lock), a populate that replaces a proxy - running or stopped - two (AddOrReplace: existing.Stop(), which does nothing to a stopped proxy, then proxy.Start() and the insert — the collection lock is held across both, which stops every other handler's first block but not a Proxy.Update that has already looked its proxy object up: of another proxy, or of the very object being replaced), toxic add/update/remove two blocks (lookup, then the ToxicCollection method on that object), ProxyUpdate four (lookup, unlocked read of the defaults + decode, Proxy.Update whose stop-then-start is visible half-way to unlocked readers); proxy objects identified by (name, epoch); listeners of unregistered objects (zombies)",
     "assumptions": _E4_ASSUME + [
         "sync.Mutex/RWMutex give mutual exclusion; a block is what one critical section (or one unlocked read) does — data races inside a block other than the ones modelled (the unlocked reads of a proxy's listen/upstream/enabled) are not modelled",
         "E7's schedules are the real scheduler's plus pseudo-random sleeps at the yield points the overlay inserts into api.go (seven), proxy.go (before Proxy.Update's restart) and proxy_collection.go (between AddOrReplace's stop and start); nothing guarantees that every interleaving is visited",
